@@ -60,9 +60,19 @@ def epilogue (id : Nat) (st : ExitStatus) : Bytes :=
   RecordHeader.toBytes ⟨RT.stdout, id, 0, 0⟩ ++ RecordHeader.toBytes ⟨RT.stderr, id, 0, 0⟩ ++
     st.toEndRequest.toRecord id
 
-/-- Everything the connection writes for the request, in order. -/
+/-- Everything the connection writes for the request, in order; `O₁` / `O₂` = the replies owed for
+the noise inside the Stdin stream that get written before / after the handler's output. -/
+def expectedLogN (p : Preamble) (recs : List Rec) (mc : Nat) (data : Bytes) (st : ExitStatus)
+    (O₁ O₂ : Bytes) : Bytes :=
+  owedPreamble p mc recs ++ O₁ ++ streamRecords 6 p.id data ++ O₂ ++ epilogue p.id st
+
+/-- … when the stream's noise owes no reply -/
 def expectedLog (p : Preamble) (recs : List Rec) (mc : Nat) (data : Bytes) (st : ExitStatus) : Bytes :=
   owedPreamble p mc recs ++ streamRecords 6 p.id data ++ epilogue p.id st
+
+theorem expectedLogN_nil (p : Preamble) (recs : List Rec) (mc : Nat) (data : Bytes) (st : ExitStatus) :
+    expectedLogN p recs mc data st [] [] = expectedLog p recs mc data st := by
+  simp [expectedLogN, expectedLog]
 
 /-- The trace event of the handler start of request `rq` (`HS(role,flags,env)`). -/
 abbrev startEvent (rq : Request) : String := hsEvent rq
@@ -70,24 +80,29 @@ abbrev startEvent (rq : Request) : String := hsEvent rq
 /-- The trace event of a `readAll` that returned `bytes`. -/
 abbrev readEvent (bytes : Bytes) : String := rEvent bytes
 
-/-- What the run ends in. -/
-structure Outcome (p : Preamble) (recs : List Rec) (content : Bytes) (b mc : Nat) (data : Bytes)
-    (st : ExitStatus) (L0 : Bytes) (t : Transport) (c' : Conn) (fin : String) : Prop where
+/-- What the run ends in (`log` = everything written after `L0`). -/
+structure OutcomeN (p : Preamble) (content : Bytes) (b mc : Nat) (L0 log : Bytes) (t : Transport)
+    (c' : Conn) (fin : String) : Prop where
   /-- (a) exactly one handler invocation, for the request sent -/
   one_handler : hsCount c'.env.tr.events = 1 ∧ startEvent p.request ∈ c'.env.tr.events
   /-- (b) its `readAll` returned exactly the Stdin content -/
   read_content : readEvent content ∈ c'.env.tr.events
-  /-- (c) the write log: owed preamble replies, Stdout records of `data`, the epilogue -/
-  log : c'.env.tr.wlog = L0 ++ expectedLog p recs mc data st
+  /-- (c) the write log -/
+  log : c'.env.tr.wlog = L0 ++ log
   /-- (d) returned, or parked waiting for the next request -/
   final : (p.flags.toNat % 2 = 0 ∧ fin = "RET" ∧ c'.phase = .finished) ∨
           (p.flags.toNat % 2 = 1 ∧ t.endMode = .eof ∧ fin = "RET" ∧ c'.phase = .finished) ∨
           (p.flags.toNat % 2 = 1 ∧ t.endMode = .pend ∧ fin = "STALL" ∧
             c'.phase = .parseReq ⟨alignedBufsize b, [], .header, mc⟩ .reading ∧ c'.env.tr.input = [])
 
+/-- What the run ends in when the stream's noise owes no reply. -/
+abbrev Outcome (p : Preamble) (recs : List Rec) (content : Bytes) (b mc : Nat) (data : Bytes)
+    (st : ExitStatus) (L0 : Bytes) (t : Transport) (c' : Conn) (fin : String) : Prop :=
+  OutcomeN p content b mc L0 (expectedLog p recs mc data st) t c' fin
+
 /-- (e) in particular: no panic, no fuel exhaustion -/
-theorem Outcome.no_panic {p recs content b mc data st L0 t c' fin}
-    (h : Outcome p recs content b mc data st L0 t c' fin) : fin = "RET" ∨ fin = "STALL" := by
+theorem OutcomeN.no_panic {p content b mc L0 log t c' fin}
+    (h : OutcomeN p content b mc L0 log t c' fin) : fin = "RET" ∨ fin = "STALL" := by
   rcases h.final with ⟨_, h, _⟩ | ⟨_, _, h, _⟩ | ⟨_, _, h, _⟩
   · exact Or.inl h
   · exact Or.inl h
@@ -96,8 +111,8 @@ theorem Outcome.no_panic {p recs content b mc data st L0 t c' fin}
 /-- **The general statement** (Responder; arbitrary `StreamNoise` in the Stdin stream — provided its
 management `GetValues` bodies fit the buffer like those of the preamble, `NoiseFits` — whose replies
 `O₁ ++ O₂ = owedStream …` may come before *or after* the handler's own output: the replies queued
-by the `parse` call that reports `stream_end` are only flushed by `close`).  Not proved; the proved
-`single_request_e2e_partial` is the instance `owedStream … = []` (then `O₁ = O₂ = []`). -/
+by the `parse` call that reports `stream_end` are only flushed by `close`).
+Proved: `single_request_e2e_full_holds`. -/
 def single_request_e2e_full : Prop :=
   ∀ (p : Preamble) (recs : List Rec) (content : Bytes) (srecs : List Rec) (b mc : Nat) (data : Bytes)
     (st : ExitStatus) (t : Transport) (fuel : Nat),
@@ -120,58 +135,94 @@ theorem epilogue_eq (id : Nat) (st : ExitStatus) :
   rw [(C17.epilogue_spec id st _).1]
   simp [epilogue]
 
-/-- **C07 end to end, one request** — proved.
+theorem owedStream_term (id mc : Nat) (pad : Bytes) (res : UInt8) :
+    owedStream id 5 mc [{ rtype := 5, id := id, content := [], pad := pad, reserved := res }] = [] := by
+  simp [owedStream]
 
-Hypotheses added to `single_request_e2e_full`:
-* `hquiet`: the noise inside the Stdin stream owes no reply (`owedStream … = []`: records of other
-  requests' streams, stale Params/Data records, body-less `GetValues`, …; noise in the *preamble* is
-  unrestricted and its replies are accounted for);
-* `hsize`: `4·|wire| + 17 ≤ 100000` — `runTask` gives `pollConn` 100000 units of model fuel per poll
-  and one phase transition costs one unit (a model artefact, not a property of the code);
-* `hhf`: `aligned_bufsize/32 + ⌈|data|/65535⌉ + 13 ≤ 1000` — `pollConn` gives `handlerPoll`
-  `1000 + 4·|input|` units of model fuel per poll and `readAll` costs one unit per 64-byte `read`
-  (same remark; holds for the default `buffer_size = 8192` and any `data` up to 48 MB).
+/-- **C07 end to end, one request** — the general form with the final state spelled out.
 
-The transport hypotheses are exactly `Ben t`: `t.rd`, `t.wr` arbitrary lists of `n k` / `all` /
-`pending` answers (no `err`, no `zero`), `t.endMode ∈ {eof, pend}`, no peer holding input back. -/
+A Responder request: well-formed preamble (any idle / Params noise within the C06 buffer bound), a
+Stdin stream with ANY noise (management `GetValues` bodies within the same bound), all of it in the
+transport; the transport splits reads and writes arbitrarily and answers `Pending` whenever it likes
+(`Ben t`: no `err`, no `zero`, `endMode ∈ {eof, pend}`, no peer holding input back); the canonical
+handler.  Then `runTask`, within `|rd| + |wr| + 1` polls, ends `RET` / `STALL` as `OutcomeN` says,
+having written exactly: the replies owed for the preamble, `O₁`, the Stdout records of `data`, `O₂`,
+`[Stdout∅][Stderr∅][EndRequest(id, st)]`, where `O₁ ++ O₂` are the replies owed for the stream's noise.
+
+`hsize` / `hhf` are side conditions on the *model's* fuel (`pollConn 100000`,
+`handlerPoll (1000 + 4·|input|)`), not properties of the code. -/
+theorem single_request_e2e {p : Preamble} {recs : List Rec} {content : Bytes} {srecs : List Rec}
+    {b mc : Nat} {data : Bytes} {st : ExitStatus} {t : Transport} {fuel : Nat}
+    (hwf : WellFormedPreamble p recs) (hrole : p.role = 1)
+    (hpairs : ∀ q ∈ p.pairs, (NV.enc q).length ≤ alignedBufsize b)
+    (hnoise : NoiseFits (alignedBufsize b) recs)
+    (hs : StreamRecs p.id 5 content srecs) (hsn : NoiseFits (alignedBufsize b) srecs)
+    (hin : t.input = serAll recs ++ serAll srecs) (hben : Ben t) (hev : hsCount t.events = 0)
+    (hfuel : t.rd.length + t.wr.length + 1 ≤ fuel)
+    (hsize : 4 * t.input.length + 17 ≤ 100000)
+    (hhf : alignedBufsize b / 32 + wcost data.length + 12 ≤ 1000) :
+    ∃ c' fin O₁ O₂, runTask fuel (conn0 b mc t data st) 0 none = (c', fin) ∧
+      O₁ ++ O₂ = owedStream p.id 5 mc srecs ∧
+      OutcomeN p content b mc t.wlog (expectedLogN p recs mc data st O₁ O₂) t c' fin := by
+  obtain ⟨body, pad, res, hpad, hbody, hsrecs⟩ := StreamRecs.split hs
+  let g : E2E.Cfg := ⟨p, recs, content, body, pad, res, b, mc, data, st, t.wlog, 0, []⟩
+  have hsb : NoiseFits (alignedBufsize b) body := fun r hr => hsn r (by rw [hsrecs]; simp [hr])
+  have ok : g.OK := ⟨hwf, hrole, hpairs, hnoise, hbody, hsb, hpad, hhf⟩
+  have hW : g.W = t.input := by
+    rw [hin, hsrecs, C02.serAll_append, C02.serAll_single]
+    rfl
+  have hOt : owedStream p.id 5 mc srecs = g.Ot := by
+    rw [hsrecs, owedStream_append]
+    have := owedStream_term p.id mc pad res
+    show owedStream p.id 5 mc body ++ owedStream p.id 5 mc [_] = owedStream p.id 5 mc body
+    rw [show (UInt8.ofNat 5) = 5 from rfl, this, List.append_nil]
+  have hstage : Stage g (conn0 b mc t data st) :=
+    .start (raw := []) rfl (by show [] ++ t.input = g.W; rw [hW]; rfl) (Nat.zero_le _) rfl hben rfl rfl rfl hev
+  obtain ⟨c', ⟨hem, _, _, _⟩, O1, O2, hO, hres⟩ := run_from_stage ok (ans t) (conn0 b mc t data st) 0 fuel hstage rfl
+    (Nat.le_refl _) (by unfold ans; omega) hsize
+  have hlog : g.L3 O1 O2 = t.wlog ++ expectedLogN p recs mc data st O1 O2 := by
+    show (((t.wlog ++ owedPreamble p mc recs) ++ O1) ++ streamRecords 6 p.id data) ++ O2 ++
+      makeRequestEpilogue p.id st [RT.stdout, RT.stderr] = _
+    rw [epilogue_eq]
+    simp only [expectedLogN, List.append_assoc]
+  have hem' : c'.env.tr.endMode = t.endMode := hem
+  rcases hres with ⟨hrun, hfin⟩ | ⟨hrun, hpk⟩
+  · refine ⟨c', "RET", O1, O2, hrun, hO.trans hOt.symm, hfin.ev, hfin.re, hfin.log.trans hlog, ?_⟩
+    rcases hfin.why with hk | ⟨hk, he⟩
+    · exact Or.inl ⟨hk, rfl, hfin.ph⟩
+    · exact Or.inr (Or.inl ⟨hk, hem'.symm.trans he, rfl, hfin.ph⟩)
+  · exact ⟨c', "STALL", O1, O2, hrun, hO.trans hOt.symm, hpk.ev, hpk.re, hpk.log.trans hlog,
+      Or.inr (Or.inr ⟨hpk.keep, hem'.symm.trans hpk.em, rfl, hpk.ph, hpk.inp⟩)⟩
+
+/-- **`single_request_e2e_full` holds.** -/
+theorem single_request_e2e_full_holds : single_request_e2e_full := by
+  intro p recs content srecs b mc data st t fuel hwf hrole hpairs hnoise hs hsn hin hben hev hfuel hsize hhf
+  obtain ⟨c', fin, O1, O2, hrun, hO, ho⟩ :=
+    single_request_e2e hwf hrole hpairs hnoise hs hsn hin hben hev hfuel hsize hhf
+  exact ⟨c', fin, O1, O2, hrun, hO, ho.log, ho.no_panic, ho.one_handler.1, ho.one_handler.2, ho.read_content⟩
+
+/-- The instance where the stream's noise owes no reply (`hquiet`; then `NoiseFits` for the stream is
+automatic and the log has no `O₁`, `O₂`). -/
 theorem single_request_e2e_partial {p : Preamble} {recs : List Rec} {content : Bytes} {srecs : List Rec}
     {b mc : Nat} {data : Bytes} {st : ExitStatus} {t : Transport} {fuel : Nat}
     (hwf : WellFormedPreamble p recs) (hrole : p.role = 1)
     (hpairs : ∀ q ∈ p.pairs, (NV.enc q).length ≤ alignedBufsize b)
     (hnoise : NoiseFits (alignedBufsize b) recs)
-    (hs : StreamRecs p.id 5 content srecs) (hquiet : owedStream p.id 5 mc srecs = [])
+    (hs : StreamRecs p.id 5 content srecs) (hsn : NoiseFits (alignedBufsize b) srecs)
+    (hquiet : owedStream p.id 5 mc srecs = [])
     (hin : t.input = serAll recs ++ serAll srecs) (hben : Ben t) (hev : hsCount t.events = 0)
     (hfuel : t.rd.length + t.wr.length + 1 ≤ fuel)
     (hsize : 4 * t.input.length + 17 ≤ 100000)
     (hhf : alignedBufsize b / 32 + wcost data.length + 12 ≤ 1000) :
     ∃ c' fin, runTask fuel (conn0 b mc t data st) 0 none = (c', fin) ∧
       Outcome p recs content b mc data st t.wlog t c' fin := by
-  obtain ⟨body, pad, res, hpad, hbody, hsrecs⟩ := StreamRecs.split hs
-  let g : Cfg := ⟨p, recs, content, body, pad, res, b, mc, data, st, t.wlog, 0, []⟩
-  have hq : owedStream p.id 5 mc body = [] := by
-    rw [hsrecs, owedStream_append] at hquiet
-    exact (List.append_eq_nil_iff.1 hquiet).1
-  have ok : g.OK := ⟨hwf, hrole, hpairs, hnoise, hbody, hq, hpad, hhf⟩
-  have hW : g.W = t.input := by
-    rw [hin, hsrecs, C02.serAll_append, C02.serAll_single]
-    rfl
-  have hstage : Stage g (conn0 b mc t data st) :=
-    .start (raw := []) rfl (by show [] ++ t.input = g.W; rw [hW]; rfl) (Nat.zero_le _) rfl hben rfl rfl rfl hev
-  obtain ⟨c', ⟨hem, _, _, _⟩, hres⟩ := run_from_stage ok (ans t) (conn0 b mc t data st) 0 fuel hstage rfl
-    (Nat.le_refl _) (by unfold ans; omega) hsize
-  have hlog : g.L3 = t.wlog ++ expectedLog p recs mc data st := by
-    show ((t.wlog ++ owedPreamble p mc recs) ++ streamRecords 6 p.id data) ++
-      makeRequestEpilogue p.id st [RT.stdout, RT.stderr] = _
-    rw [epilogue_eq]
-    simp only [expectedLog, List.append_assoc]
-  have hem' : c'.env.tr.endMode = t.endMode := hem
-  rcases hres with ⟨hrun, hfin⟩ | ⟨hrun, hpk⟩
-  · refine ⟨c', "RET", hrun, hfin.ev, hfin.re, hfin.log.trans hlog, ?_⟩
-    rcases hfin.why with hk | ⟨hk, he⟩
-    · exact Or.inl ⟨hk, rfl, hfin.ph⟩
-    · exact Or.inr (Or.inl ⟨hk, hem'.symm.trans he, rfl, hfin.ph⟩)
-  · exact ⟨c', "STALL", hrun, hpk.ev, hpk.re, hpk.log.trans hlog,
-      Or.inr (Or.inr ⟨hpk.keep, hem'.symm.trans hpk.em, rfl, hpk.ph, hpk.inp⟩)⟩
+  obtain ⟨c', fin, O1, O2, hrun, hO, ho⟩ :=
+    single_request_e2e hwf hrole hpairs hnoise hs hsn hin hben hev hfuel hsize hhf
+  rw [hquiet] at hO
+  obtain ⟨h1, h2⟩ := List.append_eq_nil_iff.1 hO
+  subst h1 h2
+  rw [expectedLogN_nil] at ho
+  exact ⟨c', fin, hrun, ho⟩
 
 /-- **Ideal transport** (every read returns what is there, every write accepts everything): the whole
 request is served in a single poll of the task. -/
@@ -180,14 +231,15 @@ theorem single_request_e2e_ideal {p : Preamble} {recs : List Rec} {content : Byt
     (hwf : WellFormedPreamble p recs) (hrole : p.role = 1)
     (hpairs : ∀ q ∈ p.pairs, (NV.enc q).length ≤ alignedBufsize b)
     (hnoise : NoiseFits (alignedBufsize b) recs)
-    (hs : StreamRecs p.id 5 content srecs) (hquiet : owedStream p.id 5 mc srecs = [])
+    (hs : StreamRecs p.id 5 content srecs) (hsn : NoiseFits (alignedBufsize b) srecs)
     (hin : t.input = serAll recs ++ serAll srecs) (hrd : t.rd = []) (hwr : t.wr = [])
     (hhold : t.hold = false) (hem : t.endMode ≠ .err) (hev : hsCount t.events = 0)
     (hsize : 4 * t.input.length + 17 ≤ 100000)
     (hhf : alignedBufsize b / 32 + wcost data.length + 12 ≤ 1000) :
-    ∃ c' fin, runTask 1 (conn0 b mc t data st) 0 none = (c', fin) ∧
-      Outcome p recs content b mc data st t.wlog t c' fin :=
-  single_request_e2e_partial hwf hrole hpairs hnoise hs hquiet hin
+    ∃ c' fin O₁ O₂, runTask 1 (conn0 b mc t data st) 0 none = (c', fin) ∧
+      O₁ ++ O₂ = owedStream p.id 5 mc srecs ∧
+      OutcomeN p content b mc t.wlog (expectedLogN p recs mc data st O₁ O₂) t c' fin :=
+  single_request_e2e hwf hrole hpairs hnoise hs hsn hin
     ⟨(by rw [hrd]; intro a ha; cases ha), (by rw [hwr]; intro a ha; cases ha), hhold, hem⟩ hev
     (by rw [hrd, hwr]; exact Nat.le_refl _) hsize hhf
 
@@ -215,48 +267,70 @@ def wire (q : Sent) : Bytes := serAll q.recs ++ serAll q.srecs
 /-- the handler script for the request -/
 def handler (q : Sent) : List HOp × Bool := (canonical q.data q.st, true)
 
-/-- The hypotheses of `single_request_e2e_partial` on one request. -/
+/-- The hypotheses of `single_request_e2e` on one request. -/
 structure OK (q : Sent) (b mc : Nat) : Prop where
   wf : WellFormedPreamble q.p q.recs
   role : q.p.role = 1
   pairs : ∀ x ∈ q.p.pairs, (NV.enc x).length ≤ alignedBufsize b
   noise : NoiseFits (alignedBufsize b) q.recs
   stream : StreamRecs q.p.id 5 q.content q.srecs
-  quiet : owedStream q.p.id 5 mc q.srecs = []
+  sfits : NoiseFits (alignedBufsize b) q.srecs
   hsize : 4 * q.wire.length + 17 ≤ 100000
   hhf : alignedBufsize b / 32 + wcost q.data.length + 12 ≤ 1000
 end Sent
 
-/-- everything the connection writes for the requests, in order -/
+/-- `A` is what the connection writes for the requests, in order: for each request its answer
+(`expectedLogN`) with some split `O₁ ++ O₂` of the replies owed for its stream's noise. -/
+def AnswerAll (mc : Nat) : List Sent → Bytes → Prop
+  | [], A => A = []
+  | q :: qs, A => ∃ O₁ O₂ rest, O₁ ++ O₂ = owedStream q.p.id 5 mc q.srecs ∧ AnswerAll mc qs rest ∧
+      A = expectedLogN q.p q.recs mc q.data q.st O₁ O₂ ++ rest
+
+/-- … when no stream noise owes a reply -/
 def expectedAll (mc : Nat) : List Sent → Bytes
   | [] => []
   | q :: qs => expectedLog q.p q.recs mc q.data q.st ++ expectedAll mc qs
+
+theorem answerAll_quiet (mc : Nat) : ∀ (qs : List Sent) (A : Bytes),
+    (∀ q ∈ qs, owedStream q.p.id 5 mc q.srecs = []) → AnswerAll mc qs A → A = expectedAll mc qs
+  | [], A, _, h => h
+  | q :: qs, A, hq, ⟨O1, O2, rest, hO, hr, hA⟩ => by
+    rw [hq q List.mem_cons_self] at hO
+    obtain ⟨h1, h2⟩ := List.append_eq_nil_iff.1 hO
+    subst h1 h2
+    rw [hA, expectedLogN_nil, answerAll_quiet mc qs rest (fun q' hq' => hq q' (List.mem_cons_of_mem _ hq')) hr]
+    rfl
 
 /-- the connection task with one handler script per request to come -/
 def connK (b mc : Nat) (t : Transport) (qs : List Sent) : Conn :=
   { phase := .parseReq (Req.Parser.new b mc) .start, env := { tr := t, segs := [] },
     scripts := qs.map Sent.handler }
 
-def cfgOf (b mc : Nat) (q : Sent) (L0 : Bytes) (h : Nat) (more : List (List HOp × Bool)) : Cfg :=
+def cfgOf (b mc : Nat) (q : Sent) (L0 : Bytes) (h : Nat) (more : List (List HOp × Bool)) : E2E.Cfg :=
   ⟨q.p, q.recs, q.content, q.body, q.pad, q.res, b, mc, q.data, q.st, L0, h, more⟩
 
-def cfgs (b mc : Nat) : Bytes → Nat → List Sent → List Cfg
-  | _, _, [] => []
-  | L0, h, q :: qs =>
-    cfgOf b mc q L0 h (qs.map Sent.handler) ::
-      cfgs b mc (cfgOf b mc q L0 h (qs.map Sent.handler)).L3 (h + 1) qs
+/-- the configurations of the requests after the first (their `L0` is threaded by `chain_run`) -/
+def cfgs (b mc : Nat) : Nat → List Sent → List E2E.Cfg
+  | _, [] => []
+  | h, q :: qs => cfgOf b mc q [] h (qs.map Sent.handler) :: cfgs b mc (h + 1) qs
 
 theorem cfgOf_W (b mc : Nat) (q : Sent) (L0 : Bytes) (h : Nat) (more : List (List HOp × Bool)) :
     (cfgOf b mc q L0 h more).W = q.wire := by
-  simp only [Cfg.W, Cfg.X, Sent.wire, Sent.srecs, C02.serAll_append, C02.serAll_single]
+  simp only [E2E.Cfg.W, E2E.Cfg.X, Sent.wire, Sent.srecs, C02.serAll_append, C02.serAll_single]
   rfl
 
-theorem cfgOf_L3 (b mc : Nat) (q : Sent) (L0 : Bytes) (h : Nat) (more : List (List HOp × Bool)) :
-    (cfgOf b mc q L0 h more).L3 = L0 ++ expectedLog q.p q.recs mc q.data q.st := by
-  show ((L0 ++ owedPreamble q.p mc q.recs) ++ streamRecords 6 q.p.id q.data) ++
+theorem cfgOf_L3 (b mc : Nat) (q : Sent) (L0 : Bytes) (h : Nat) (more : List (List HOp × Bool))
+    (O1 O2 : Bytes) :
+    (cfgOf b mc q L0 h more).L3 O1 O2 = L0 ++ expectedLogN q.p q.recs mc q.data q.st O1 O2 := by
+  show (((L0 ++ owedPreamble q.p mc q.recs) ++ O1) ++ streamRecords 6 q.p.id q.data) ++ O2 ++
     makeRequestEpilogue q.p.id q.st [RT.stdout, RT.stderr] = _
   rw [epilogue_eq]
-  simp only [expectedLog, List.append_assoc]
+  simp only [expectedLogN, List.append_assoc]
+
+theorem cfgOf_Ot (b mc : Nat) (q : Sent) (L0 : Bytes) (h : Nat) (more : List (List HOp × Bool)) :
+    (cfgOf b mc q L0 h more).Ot = owedStream q.p.id 5 mc q.srecs := by
+  rw [Sent.srecs, owedStream_append, owedStream_term, List.append_nil]
+  rfl
 
 theorem cfgOf_ok {b mc : Nat} {q : Sent} (ok : q.OK b mc) (L0 : Bytes) (h : Nat)
     (more : List (List HOp × Bool)) : (cfgOf b mc q L0 h more).OK := by
@@ -265,69 +339,134 @@ theorem cfgOf_ok {b mc : Nat} {q : Sent} (ok : q.OK b mc) (L0 : Bytes) (h : Nat)
   have e3 : q.pad = pad' := by
     have := List.singleton_inj.1 e2
     exact congrArg Rec.pad this
-  have hq : owedStream q.p.id 5 mc q.body = [] := by
-    have := ok.quiet
-    rw [Sent.srecs, owedStream_append] at this
-    exact (List.append_eq_nil_iff.1 this).1
-  exact ⟨ok.wf, ok.role, ok.pairs, ok.noise, by show Body q.p.id 5 q.content q.body; rw [e1]; exact hb', hq,
+  have hsb : NoiseFits (alignedBufsize b) q.body := fun r hr => ok.sfits r (by simp [Sent.srecs, hr])
+  exact ⟨ok.wf, ok.role, ok.pairs, ok.noise, by show Body q.p.id 5 q.content q.body; rw [e1]; exact hb', hsb,
     by show q.pad.length < 256; rw [e3]; exact hp', ok.hhf⟩
 
-theorem cfgs_W (b mc : Nat) : ∀ (qs : List Sent) (L0 : Bytes) (h : Nat),
-    (cfgs b mc L0 h qs).map Cfg.W = qs.map Sent.wire
-  | [], _, _ => rfl
-  | q :: qs, L0, h => by
+theorem cfgs_W (b mc : Nat) : ∀ (qs : List Sent) (h : Nat),
+    (cfgs b mc h qs).map E2E.Cfg.W = qs.map Sent.wire
+  | [], _ => rfl
+  | q :: qs, h => by
     simp only [cfgs, List.map_cons, cfgOf_W, cfgs_W b mc qs]
 
-theorem cfgs_ok {b mc : Nat} : ∀ (qs : List Sent) (L0 : Bytes) (h : Nat), (∀ q ∈ qs, q.OK b mc) →
-    ∀ g ∈ cfgs b mc L0 h qs, g.OK ∧ 4 * g.W.length + 17 ≤ 100000
-  | [], _, _, _ => fun g hg => by simp [cfgs] at hg
-  | q :: qs, L0, h, hok => by
+theorem cfgs_ok {b mc : Nat} : ∀ (qs : List Sent) (h : Nat), (∀ q ∈ qs, q.OK b mc) →
+    ∀ g ∈ cfgs b mc h qs, g.OK ∧ 4 * g.W.length + 17 ≤ 100000
+  | [], _, _ => fun g hg => by simp [cfgs] at hg
+  | q :: qs, h, hok => by
     intro g hg
     simp only [cfgs, List.mem_cons] at hg
     rcases hg with rfl | hg
     · exact ⟨cfgOf_ok (hok q List.mem_cons_self) _ _ _, by rw [cfgOf_W]; exact (hok q List.mem_cons_self).hsize⟩
-    · exact cfgs_ok qs _ _ (fun q' hq' => hok q' (List.mem_cons_of_mem _ hq')) g hg
+    · exact cfgs_ok qs _ (fun q' hq' => hok q' (List.mem_cons_of_mem _ hq')) g hg
 
 theorem chain_cfgs {b mc : Nat} : ∀ (qs : List Sent) (q : Sent) (L0 : Bytes) (h : Nat),
     (∀ q' ∈ (q :: qs).dropLast, q'.p.flags.toNat % 2 = 1) →
-    ChainFrom (cfgOf b mc q L0 h (qs.map Sent.handler))
-      (cfgs b mc (cfgOf b mc q L0 h (qs.map Sent.handler)).L3 (h + 1) qs)
+    ChainFrom (cfgOf b mc q L0 h (qs.map Sent.handler)) (cfgs b mc (h + 1) qs)
   | [], _, _, _, _ => trivial
   | q2 :: qs, q, L0, h, hk => by
-    refine ⟨⟨rfl, rfl, rfl, rfl, rfl, hk q (by simp [List.dropLast])⟩, ?_⟩
+    refine ⟨⟨rfl, rfl, rfl, rfl, hk q (by simp [List.dropLast])⟩, ?_⟩
     exact chain_cfgs qs q2 _ _ (fun q' hq' => hk q' (by
       rw [List.dropLast_cons_cons]
       exact List.mem_cons_of_mem _ hq'))
 
-/-- what the last configuration of the chain says -/
-theorem last_cfg {b mc : Nat} : ∀ (qs : List Sent) (q : Sent) (L0 : Bytes) (h : Nat),
-    ∃ gl, (cfgOf b mc q L0 h (qs.map Sent.handler) ::
-        cfgs b mc (cfgOf b mc q L0 h (qs.map Sent.handler)).L3 (h + 1) qs).getLast (by simp) = gl ∧
-      gl.L3 = L0 ++ expectedAll mc (q :: qs) ∧ gl.hs0 + 1 = h + (q :: qs).length ∧
-      gl.p = ((q :: qs).getLast (by simp)).p ∧ gl.cap = alignedBufsize b ∧ gl.mc = mc ∧ gl.more = []
-  | [], q, L0, h => ⟨cfgOf b mc q L0 h [], rfl, by simp [cfgOf_L3, expectedAll], by simp [cfgOf], rfl, rfl, rfl, rfl⟩
-  | q2 :: qs, q, L0, h => by
-    obtain ⟨gl, h1, h2, h3, h4, h5, h6, h7⟩ := last_cfg qs q2 (cfgOf b mc q L0 h ((q2 :: qs).map Sent.handler)).L3 (h + 1)
-    refine ⟨gl, ?_, ?_, ?_, ?_, h5, h6, h7⟩
-    · simp only [cfgs, List.getLast_cons_cons]
-      exact h1
-    · rw [h2, cfgOf_L3]
-      simp only [expectedAll, List.append_assoc]
-    · simp only [List.length_cons] at h3 ⊢
-      omega
-    · rw [h4, List.getLast_cons_cons]
+/-- the logs of the chain are the answers of the requests -/
+theorem logChain_answers {b mc : Nat} : ∀ (qs : List Sent) (q : Sent) (L0 L L' : Bytes) (h : Nat),
+    LogChain L (cfgOf b mc q L0 h (qs.map Sent.handler) :: cfgs b mc (h + 1) qs) L' →
+    ∃ A, AnswerAll mc (q :: qs) A ∧ L' = L ++ A
+  | [], q, L0, L, L', h, ⟨O1, O2, hO, hr⟩ => by
+    have hr' : L' = _ := hr
+    refine ⟨_, ⟨O1, O2, [], by rw [← cfgOf_Ot b mc q L0 h []]; exact hO, rfl, rfl⟩, ?_⟩
+    rw [hr']
+    show (cfgOf b mc q L h []).L3 O1 O2 = _
+    rw [cfgOf_L3, List.append_nil]
+  | q2 :: qs, q, L0, L, L', h, ⟨O1, O2, hO, hr⟩ => by
+    obtain ⟨A, hA, hL'⟩ := logChain_answers qs q2 [] _ L' (h + 1) hr
+    refine ⟨_, ⟨O1, O2, A, by rw [← cfgOf_Ot b mc q L0 h ((q2 :: qs).map Sent.handler)]; exact hO, hA, rfl⟩, ?_⟩
+    rw [hL']
+    show (cfgOf b mc q L h _).L3 O1 O2 ++ A = _
+    rw [cfgOf_L3, List.append_assoc]
 
-/-- **C07 end to end, several requests** — proved (same added hypotheses as
-`single_request_e2e_partial`, for every request; plus: the peer is the closed-loop client of
-`closedLoop` — it sends the next request when the task has parked — and never closes its end,
-`t.endMode = .pend`).
+theorem lastP_cfgs {b mc : Nat} : ∀ (qs : List Sent) (q : Sent) (L0 : Bytes) (h : Nat),
+    ∃ L', lastP (cfgOf b mc q L0 h (qs.map Sent.handler)) (cfgs b mc (h + 1) qs) =
+      cfgOf b mc ((q :: qs).getLast (by simp)) L' (h + qs.length) []
+  | [], q, L0, h => ⟨L0, rfl⟩
+  | q2 :: qs, q, L0, h => by
+    obtain ⟨L', hL'⟩ := lastP_cfgs qs q2 [] (h + 1)
+    refine ⟨L', ?_⟩
+    simp only [cfgs, lastP_cons, List.getLast_cons_cons, List.length_cons]
+    rw [hL']
+    congr 1
+    omega
+
+/-- **C07 end to end, several requests** (same hypotheses as `single_request_e2e`, for every request;
+plus: the peer is the closed-loop client of `closedLoop` — it sends the next request when the task
+has parked — and never closes its end, `t.endMode = .pend`).
 
 A client sends `q₁, …, q_k` on one connection, all but the last with KEEP_CONN, each after the answer
 to the previous one.  Then every request gets its own handler call (with its own request and Stdin
 content), the write log is the concatenation of the `k` answers in order and nothing else, and the
 task ends parked for a `(k+1)`-th request (last request KEEP_CONN) or returns (otherwise). -/
+theorem k_requests_e2e {b mc : Nat} (q : Sent) (qs : List Sent) {t : Transport} {fuel : Nat}
+    (hok : ∀ q' ∈ q :: qs, q'.OK b mc)
+    (hkeep : ∀ q' ∈ (q :: qs).dropLast, q'.p.flags.toNat % 2 = 1)
+    (hin : t.input = q.wire) (hben : Ben t) (hem : t.endMode = .pend) (hev : hsCount t.events = 0)
+    (hfuel : t.rd.length + t.wr.length + 1 ≤ fuel) :
+    ∃ c' fin A, closedLoop fuel (qs.map Sent.wire) (connK b mc t (q :: qs)) 0 = (c', fin) ∧
+      AnswerAll mc (q :: qs) A ∧ c'.env.tr.wlog = t.wlog ++ A ∧
+      hsCount c'.env.tr.events = (q :: qs).length ∧
+      (∀ q' ∈ q :: qs, startEvent q'.p.request ∈ c'.env.tr.events ∧ readEvent q'.content ∈ c'.env.tr.events) ∧
+      c'.scripts = [] ∧
+      ((((q :: qs).getLast (by simp)).p.flags.toNat % 2 = 1 ∧ fin = "STALL" ∧
+          c'.phase = .parseReq ⟨alignedBufsize b, [], .header, mc⟩ .reading ∧ c'.env.tr.input = []) ∨
+       (((q :: qs).getLast (by simp)).p.flags.toNat % 2 = 0 ∧ fin = "RET" ∧ c'.phase = .finished)) := by
+  have okq := hok q List.mem_cons_self
+  have hstage : Stage (cfgOf b mc q t.wlog 0 (qs.map Sent.handler)) (connK b mc t (q :: qs)) :=
+    .start (raw := []) rfl (by show [] ++ t.input = _; rw [cfgOf_W, hin]; rfl) (Nat.zero_le _) rfl hben rfl rfl rfl hev
+  obtain ⟨c', fin, hrun, _, hem', hlog, hend, hall⟩ := chain_run
+    (cfgs b mc (0 + 1) qs)
+    (cfgOf b mc q t.wlog 0 (qs.map Sent.handler)) (connK b mc t (q :: qs)) 0 fuel hstage rfl hem
+    (by show ans t + 1 ≤ fuel; unfold ans; omega)
+    (by show 4 * t.input.length + 17 ≤ 100000; rw [hin]; exact okq.hsize)
+    (cfgOf_ok okq _ _ _)
+    (cfgs_ok qs _ (fun q' hq' => hok q' (List.mem_cons_of_mem _ hq')))
+    (chain_cfgs qs q _ _ hkeep)
+  rw [cfgs_W] at hrun
+  obtain ⟨A, hA, hLA⟩ := logChain_answers qs q t.wlog t.wlog c'.env.tr.wlog 0 hlog
+  obtain ⟨L', hgl⟩ := lastP_cfgs (b := b) (mc := mc) qs q t.wlog 0
+  rw [hgl] at hend
+  have hallq : ∀ q' ∈ q :: qs, startEvent q'.p.request ∈ c'.env.tr.events ∧ readEvent q'.content ∈ c'.env.tr.events := by
+    have key : ∀ (qs : List Sent) (h : Nat) (q' : Sent), q' ∈ qs →
+        ∃ g ∈ cfgs b mc h qs, g.p = q'.p ∧ g.content = q'.content := by
+      intro qs
+      induction qs with
+      | nil => intro _ _ h; cases h
+      | cons a as ih =>
+        intro h q' hq'
+        rcases List.mem_cons.1 hq' with rfl | hq'
+        · exact ⟨_, by simp only [cfgs]; exact List.mem_cons_self, rfl, rfl⟩
+        · obtain ⟨g, hg, h1, h2⟩ := ih (h + 1) q' hq'
+          exact ⟨g, by simp only [cfgs]; exact List.mem_cons_of_mem _ hg, h1, h2⟩
+    intro q' hq'
+    rcases List.mem_cons.1 hq' with h | hq'
+    · rw [h]
+      exact hall (cfgOf b mc q t.wlog 0 (qs.map Sent.handler)) List.mem_cons_self
+    · obtain ⟨g, hg, h1, h2⟩ := key qs (0 + 1) q' hq'
+      have := hall g (List.mem_cons_of_mem _ hg)
+      rw [h1, h2] at this
+      exact this
+  refine ⟨c', fin, A, hrun, hA, hLA, ?_, hallq, hend.sc, ?_⟩
+  · have := hend.hs
+    simp only [cfgOf, List.length_cons] at this ⊢
+    omega
+  · rcases hend.fin with ⟨rfl, hph, hk | ⟨_, he⟩⟩ | ⟨rfl, hph, hinp, hk⟩
+    · exact Or.inr ⟨hk, rfl, hph⟩
+    · rw [hem'] at he; cases he
+    · exact Or.inl ⟨hk, rfl, hph, hinp⟩
+
+/-- The instance where no stream noise owes a reply: the log is `expectedAll`. -/
 theorem k_requests_e2e_partial {b mc : Nat} (q : Sent) (qs : List Sent) {t : Transport} {fuel : Nat}
     (hok : ∀ q' ∈ q :: qs, q'.OK b mc)
+    (hquiet : ∀ q' ∈ q :: qs, owedStream q'.p.id 5 mc q'.srecs = [])
     (hkeep : ∀ q' ∈ (q :: qs).dropLast, q'.p.flags.toNat % 2 = 1)
     (hin : t.input = q.wire) (hben : Ben t) (hem : t.endMode = .pend) (hev : hsCount t.events = 0)
     (hfuel : t.rd.length + t.wr.length + 1 ≤ fuel) :
@@ -339,45 +478,9 @@ theorem k_requests_e2e_partial {b mc : Nat} (q : Sent) (qs : List Sent) {t : Tra
       ((((q :: qs).getLast (by simp)).p.flags.toNat % 2 = 1 ∧ fin = "STALL" ∧
           c'.phase = .parseReq ⟨alignedBufsize b, [], .header, mc⟩ .reading ∧ c'.env.tr.input = []) ∨
        (((q :: qs).getLast (by simp)).p.flags.toNat % 2 = 0 ∧ fin = "RET" ∧ c'.phase = .finished)) := by
-  have okq := hok q List.mem_cons_self
-  have hstage : Stage (cfgOf b mc q t.wlog 0 (qs.map Sent.handler)) (connK b mc t (q :: qs)) :=
-    .start (raw := []) rfl (by show [] ++ t.input = _; rw [cfgOf_W, hin]; rfl) (Nat.zero_le _) rfl hben rfl rfl rfl hev
-  obtain ⟨c', fin, hrun, _, hem', hres, hall⟩ := chain_run
-    (cfgs b mc (cfgOf b mc q t.wlog 0 (qs.map Sent.handler)).L3 (0 + 1) qs)
-    (cfgOf b mc q t.wlog 0 (qs.map Sent.handler)) (connK b mc t (q :: qs)) 0 fuel hstage rfl hem
-    (by show ans t + 1 ≤ fuel; unfold ans; omega)
-    (by show 4 * t.input.length + 17 ≤ 100000; rw [hin]; exact okq.hsize)
-    (cfgOf_ok okq _ _ _)
-    (cfgs_ok qs _ _ (fun q' hq' => hok q' (List.mem_cons_of_mem _ hq')))
-    (chain_cfgs qs q _ _ hkeep)
-  rw [cfgs_W] at hrun
-  obtain ⟨gl, hgl, hL3, hhs, hp, hcap, hmc, hmore⟩ := last_cfg (b := b) (mc := mc) qs q t.wlog 0
-  rw [hgl] at hres
-  have hallq : ∀ q' ∈ q :: qs, startEvent q'.p.request ∈ c'.env.tr.events ∧ readEvent q'.content ∈ c'.env.tr.events := by
-    have key : ∀ (qs : List Sent) (L0 : Bytes) (h : Nat) (q' : Sent), q' ∈ qs →
-        ∃ g ∈ cfgs b mc L0 h qs, g.p = q'.p ∧ g.content = q'.content := by
-      intro qs
-      induction qs with
-      | nil => intro _ _ _ h; cases h
-      | cons a as ih =>
-        intro L0 h q' hq'
-        rcases List.mem_cons.1 hq' with rfl | hq'
-        · exact ⟨_, by simp only [cfgs]; exact List.mem_cons_self, rfl, rfl⟩
-        · obtain ⟨g, hg, h1, h2⟩ := ih (cfgOf b mc a L0 h (as.map Sent.handler)).L3 (h + 1) q' hq'
-          exact ⟨g, by simp only [cfgs]; exact List.mem_cons_of_mem _ hg, h1, h2⟩
-    intro q' hq'
-    obtain ⟨g, hg, h1, h2⟩ := key (q :: qs) t.wlog 0 q' hq'
-    have := hall g (by simpa only [cfgs] using hg)
-    rw [h1, h2] at this
-    exact this
-  simp only [Nat.zero_add] at hhs
-  rcases hres with ⟨rfl, hfin⟩ | ⟨rfl, hpk⟩
-  · refine ⟨c', "RET", hrun, hfin.log.trans hL3, by have := hfin.ev.1; omega, hallq, hfin.sc.trans hmore, ?_⟩
-    rcases hfin.why with hk | ⟨_, he⟩
-    · exact Or.inr ⟨by rw [← hp]; exact hk, rfl, hfin.ph⟩
-    · rw [hem'] at he; cases he
-  · refine ⟨c', "STALL", hrun, hpk.log.trans hL3, by have := hpk.ev.1; omega, hallq, hpk.sc.trans hmore,
-      Or.inl ⟨by rw [← hp]; exact hpk.keep, rfl, by rw [hpk.ph, hcap, hmc], hpk.inp⟩⟩
+  obtain ⟨c', fin, A, h1, h2, h3, h4⟩ := k_requests_e2e q qs hok hkeep hin hben hem hev hfuel
+  rw [answerAll_quiet mc _ A hquiet h2] at h3
+  exact ⟨c', fin, h1, h3, h4⟩
 
 /-! ## Non-vacuity: a concrete run
 
@@ -408,6 +511,14 @@ theorem exS_ok : StreamRecs 1 5 [65, 66, 67] exS := by
 theorem exS_quiet (mc : Nat) : owedStream 1 5 mc exS = [] := by
   simp [owedStream, exS, owed, RT.valid, RT.getValues, RT.beginRequest]
 
+/-- no management `GetValues` record among them -/
+theorem exS_fits (M : Nat) : NoiseFits M exS := by
+  intro r hr hg
+  exfalso
+  obtain ⟨h1, _⟩ := hg
+  simp only [exS, List.mem_cons, List.not_mem_nil, or_false] at hr
+  rcases hr with rfl | rfl | rfl <;> simp [RT.getValues] at h1
+
 theorem exT_ben : Ben exT :=
   ⟨by decide, by decide, rfl, by decide⟩
 
@@ -423,7 +534,7 @@ example : ∃ c', runTask 20 (conn0 64 10 exT [104, 105] (.complete 0)) 0 none =
     readEvent [65, 66, 67] ∈ c'.env.tr.events := by
   obtain ⟨c', fin, hrun, ho⟩ := single_request_e2e_partial (p := pre) (recs := recs) (content := [65, 66, 67])
     (srecs := exS) (b := 64) (mc := 10) (data := [104, 105]) (st := .complete 0) (t := exT) (fuel := 20)
-    recs_wf rfl (pre_pairs_fit 64) (noise_fits 64) exS_ok (exS_quiet 10) rfl exT_ben rfl (by decide)
+    recs_wf rfl (pre_pairs_fit 64) (noise_fits 64) exS_ok (exS_fits _) (exS_quiet 10) rfl exT_ben rfl (by decide)
     (by decide +kernel) (by decide)
   have hreq : pre.request = { id := 1, role := 1, flags := 1, env := [([65], [98])] } := by decide +kernel
   rcases ho.final with ⟨h, _⟩ | ⟨_, h, _⟩ | ⟨_, _, hfin, hph, hin⟩
@@ -449,11 +560,16 @@ def exT2 : Transport :=
     rd := [.n 10, .pending, .n 7, .all, .n 3], wr := [.n 5, .pending, .all, .n 1], fl := [] }
 
 theorem q1_ok : q1.OK 64 10 :=
-  ⟨recs_wf, rfl, pre_pairs_fit 64, noise_fits 64, exS_ok, exS_quiet 10, by decide +kernel, by decide⟩
+  ⟨recs_wf, rfl, pre_pairs_fit 64, noise_fits 64, exS_ok, exS_fits _, by decide +kernel, by decide⟩
 
 theorem q2_ok : q2.OK 64 10 :=
   ⟨recs_wf, rfl, pre_pairs_fit 64, noise_fits 64, .term [] 0 (by decide),
-    by simp [owedStream, Sent.srecs, q2, owed, RT.valid, RT.getValues, RT.beginRequest],
+    (by intro r hr hg
+        exfalso
+        obtain ⟨h1, _⟩ := hg
+        simp only [Sent.srecs, q2, List.nil_append, List.mem_singleton] at hr
+        subst hr
+        simp [RT.getValues] at h1),
     by decide +kernel, by decide⟩
 
 /-- `k_requests_e2e_partial` applied: both requests are served, the log is the two answers in order,
@@ -469,6 +585,11 @@ example : ∃ c', closedLoop 20 [q2.wire] (connK 64 10 exT2 [q1, q2]) 0 = (c', "
       rcases List.mem_cons.1 hq' with rfl | hq'
       · exact q1_ok
       · rw [List.mem_singleton.1 hq']; exact q2_ok)
+    (fun q' hq' => by
+      rcases List.mem_cons.1 hq' with rfl | hq'
+      · exact exS_quiet 10
+      · rw [List.mem_singleton.1 hq']
+        simp [owedStream, Sent.srecs, q2])
     (fun q' hq' => by
       have : q' = q1 := by simpa [List.dropLast] using hq'
       rw [this]; decide)
